@@ -14,7 +14,7 @@ RULE = ("histories over {fit(D_i), transform(D_j), inverse_transform, components
 EXHAUSTIVE = {"quick": False, "thorough": False}
 CLASSES = ["EOF", "ComplexEOF", "HilbertEOF", "ExtendedEOF", "SparsePCA", "POP", "OPA", "MCA", "CPCCA", "CCA", "ComplexMCA", "multi.CCA", "MCA+pcaall", "POP+pcaall"]
 OPS = ["fit0", "fit1", "fit2", "fit3", "fit4", "transform0", "transform1", "transformN", "inverse", "components", "scores", "metrics", "compute",
-       "serialize", "rotator", "bootstrap"]
+       "serialize", "rotator", "bootstrap"]  # (+ fit5, fit6, transformL in the fixed histories)
 
 
 def dim_of(which):
@@ -43,6 +43,12 @@ def datasets(name, which):
             X = one(4, n=24, ny=2, nx=3)
         else:
             X = xr.Dataset({"a": a, "b": a * 2.0 + 1.0})
+    elif which in (5, 6):
+        # lists of fields with different grids: three items, then two (a refit on FEWER fields must forget the third)
+        items = [one(6), one(7, ny=2, nx=3) * 2.0, one(8, ny=3, nx=2) - 1.0]
+        X = items if which == 5 else items[:2]
+        if two or name == "multi.CCA":
+            X = one(6 if which == 5 else 7)
     elif which == 4:
         X = one(5, n=12, ny=3, nx=4)  # fitted with dim=("time", "lat"): the sample axis goes through a MultiIndex
     elif which == "N":  # new samples, fitted structure of D(last) is needed: built by caller
@@ -81,6 +87,10 @@ def cases(seed, tier, broken=()):
     out.append({"cls": "EOF", "ops": ["fit0", "bootstrap", "scores", "components", "metrics"]})
     for cls in CLASSES:
         out.append({"cls": cls, "ops": ["fit0", "metrics", "compute", "scores", "metrics", "serialize", "components"]})
+    for cls in ("EOF", "ComplexEOF", "SparsePCA", "POP", "ExtendedEOF", "OPA", "HilbertEOF"):
+        out.append({"cls": cls, "ops": ["fit5", "components", "fit6", "components", "scores", "inverse", "fit5", "scores"]})
+    for cls in ("EOF", "SparsePCA", "POP", "MCA", "CCA"):
+        out.append({"cls": cls, "ops": ["fit0", "transformL", "components", "scores", "inverse", "metrics"]})
     for cls in ("EOF", "MCA", "SparsePCA", "EOF"):
         out.append({"cls": cls, "ops": ["fit4", "transformN", "scores", "inverse", "components", "transform4"]})
     out.append({"cls": "EOF", "ops": ["fit0", "fit3", "components", "fit2", "scores", "transform2"]})
@@ -240,6 +250,12 @@ def run(case):
                 w = op[9:]
                 if w == "N":
                     d = new_samples(last)
+                elif w == "L":
+                    # the same kind of data in ANOTHER container (a one-element list for an array, and back): what the model
+                    # returns later is decided by the data it was fitted on, not by the container of the last transform
+                    if isinstance(last, (tuple, list)) and not (isinstance(last, list) and len(last) == 1):
+                        continue
+                    d = [new_samples(last)] if not isinstance(last, list) else new_samples(last[0])
                 else:
                     d = datasets(cls, int(w))
                 snap = snapshot(d)
